@@ -130,11 +130,20 @@ impl Txn {
     pub fn rewrite(&mut self, w: &mut World, old: usize, new_parents: Option<&[usize]>) -> Result<usize, String> {
         let oldc = w.commit(old).clone();
         let desc = w.fresh_desc();
-        let mut b = self.tx.repo_mut().rewrite_commit(&oldc).set_description(desc);
-        if let Some(ps) = new_parents {
-            b = b.set_parents(ps.iter().map(|&p| w.cid(p)).collect());
+        let c = match new_parents {
+            // rebase -r like: the commit's own changes move onto the new parents ...
+            Some(ps) if desc.len() % 2 == 0 => {
+                let np = ps.iter().map(|&p| w.cid(p)).collect();
+                jj_lib::rewrite::CommitRewriter::new(self.tx.repo_mut(), oldc.clone(), np)
+                    .rebase().block_on().map_err(|e| e.to_string())?
+                    .set_description(desc).write().block_on()
+            }
+            // ... or reparent: same tree on other parents
+            Some(ps) => self.tx.repo_mut().rewrite_commit(&oldc).set_description(desc)
+                .set_parents(ps.iter().map(|&p| w.cid(p)).collect()).write().block_on(),
+            None => self.tx.repo_mut().rewrite_commit(&oldc).set_description(desc).write().block_on(),
         }
-        let c = b.write().block_on().map_err(|e| e.to_string())?;
+        .map_err(|e| e.to_string())?;
         let id = w.id_of(self.tx.repo(), c.id());
         self.created.push(id);
         self.pending.push((old, id));
@@ -355,7 +364,7 @@ fn pick_set<T: Copy>(rng: &mut Rng, xs: &[T]) -> Option<T> {
 }
 
 /// a few random mutations inside one transaction (no commit)
-fn random_actions(w: &mut World, rng: &mut Rng, out: &mut Out, t: &mut Txn, n: usize) -> Result<(), Aborted> {
+fn random_actions(w: &mut World, rng: &mut Rng, out: &mut Out, t: &mut Txn, n: usize, concurrent: bool) -> Result<(), Aborted> {
     for _ in 0..n {
         let vis: Vec<usize> = t.visible(w).into_iter().collect();
         let nonroot: Vec<usize> = vis.iter().copied().filter(|&c| c != 1).collect();
@@ -393,7 +402,22 @@ fn random_actions(w: &mut World, rng: &mut Rng, out: &mut Out, t: &mut Txn, n: u
                 if let Some(x) = pick_set(rng, &nonkey) {
                     let fd = t.future_descendants(w, x);
                     let new_parents = if rng.chance(1, 2) {
-                        let cands: Vec<usize> = vis.iter().copied().filter(|c| !fd.contains(c) && !t.is_key(*c)).collect();
+                        // Inside a concurrent transaction a commit only moves down onto one of its
+                        // own ancestors: two sides moving commits onto each other's descendants
+                        // would ask the reconciliation for a cyclic history (outside C13's domain).
+                        let anc: BTreeSet<usize> = {
+                            let mut seen = BTreeSet::new();
+                            let mut st: Vec<usize> = w.commit(x).parent_ids().iter().map(|p| w.ids[p]).collect();
+                            while let Some(c) = st.pop() {
+                                if seen.insert(c) {
+                                    st.extend(w.commit(c).parent_ids().iter().map(|p| w.ids[p]));
+                                }
+                            }
+                            seen
+                        };
+                        let cands: Vec<usize> = vis.iter().copied()
+                            .filter(|c| !fd.contains(c) && !t.is_key(*c) && (!concurrent || anc.contains(c)))
+                            .collect();
                         pick_set(rng, &cands).map(|p| vec![p])
                     } else {
                         None
@@ -432,12 +456,18 @@ fn random_actions(w: &mut World, rng: &mut Rng, out: &mut Out, t: &mut Txn, n: u
             }
             71..=78 => {
                 let ws = *rng.pick(&WORKSPACES);
+                if t.wc_of(w, ws).is_some_and(|x| t.is_key(x)) {
+                    continue; // leaving a commit with a pending record: rebase first (as every jj command does)
+                }
                 if let Some(c) = pick_set(rng, &nonkey) {
                     t.edit(w, ws, c)?;
                 }
             }
             79..=86 => {
                 let ws = *rng.pick(&WORKSPACES);
+                if t.wc_of(w, ws).is_some_and(|x| t.is_key(x)) {
+                    continue;
+                }
                 let cands: Vec<usize> = vis.iter().copied().filter(|c| !t.is_key(*c)).collect();
                 if let Some(c) = pick_set(rng, &cands) {
                     t.check_out(w, ws, c)?;
@@ -445,6 +475,9 @@ fn random_actions(w: &mut World, rng: &mut Rng, out: &mut Out, t: &mut Txn, n: u
             }
             87..=88 => {
                 let ws = *rng.pick(&WORKSPACES);
+                if t.wc_of(w, ws).is_some_and(|x| t.is_key(x)) {
+                    continue;
+                }
                 t.remove_workspace(w, ws)?;
             }
             _ => {
@@ -477,11 +510,11 @@ fn walks(w: &mut World, rng: &mut Rng, out: &mut Out, repo: &Arc<ReadonlyRepo>, 
     }
 }
 
-fn one_tx(w: &mut World, rng: &mut Rng, out: &mut Out, base: &Arc<ReadonlyRepo>, publish: bool, n: (usize, usize))
+fn one_tx(w: &mut World, rng: &mut Rng, out: &mut Out, base: &Arc<ReadonlyRepo>, publish: bool, n: (usize, usize), concurrent: bool)
     -> Result<Arc<ReadonlyRepo>, Aborted> {
     let mut t = Txn::start(base);
     let n = rng.range(n.0, n.1);
-    random_actions(w, rng, out, &mut t, n)?;
+    random_actions(w, rng, out, &mut t, n, concurrent)?;
     t.commit(w, out, publish)
 }
 
@@ -532,16 +565,16 @@ fn run_case(rng: &mut Rng, out: &mut Out, case: usize, steps: usize, thorough: b
         let n_act = (1, 5);
         match rng.below(100) {
             0..=54 => {
-                head = one_tx(&mut w, rng, out, &head, publish, n_act)?;
+                head = one_tx(&mut w, rng, out, &head, publish, n_act, false)?;
             }
             55..=79 => {
                 let base = w.op_id(head.op_id());
-                let a = one_tx(&mut w, rng, out, &head, publish, n_act)?;
+                let a = one_tx(&mut w, rng, out, &head, publish, n_act, true)?;
                 walks(&mut w, rng, out, &a, 1);
                 if publish {
                     std::thread::sleep(std::time::Duration::from_millis(2));
                 }
-                let b = one_tx(&mut w, rng, out, &head, publish, (1, 5))?;
+                let b = one_tx(&mut w, rng, out, &head, publish, (1, 5), true)?;
                 if publish {
                     let loader = head.loader().clone();
                     let n_old = w.commits.len();
@@ -563,7 +596,7 @@ fn run_case(rng: &mut Rng, out: &mut Out, case: usize, steps: usize, thorough: b
                 let base = w.op_id(head.op_id());
                 let mut sides = vec![];
                 for _ in 0..3 {
-                    sides.push(one_tx(&mut w, rng, out, &head, false, (1, 4))?);
+                    sides.push(one_tx(&mut w, rng, out, &head, false, (1, 4), true)?);
                 }
                 rng.shuffle(&mut sides);
                 let m1 = merge_pair(&mut w, out, &sides[0], &sides[1], base, "pair")?;
@@ -576,12 +609,12 @@ fn run_case(rng: &mut Rng, out: &mut Out, case: usize, steps: usize, thorough: b
             90..=94 if !publish && thorough => {
                 // criss-cross: both orders of one pair, one more transaction on each, reconcile those
                 let base = w.op_id(head.op_id());
-                let a = one_tx(&mut w, rng, out, &head, false, (1, 3))?;
-                let b = one_tx(&mut w, rng, out, &head, false, (1, 3))?;
+                let a = one_tx(&mut w, rng, out, &head, false, (1, 3), true)?;
+                let b = one_tx(&mut w, rng, out, &head, false, (1, 3), true)?;
                 let m1 = merge_pair(&mut w, out, &a, &b, base, "pair")?;
                 let m2 = merge_pair(&mut w, out, &b, &a, base, "pair")?;
-                let c = one_tx(&mut w, rng, out, &m1, false, (1, 3))?;
-                let d = one_tx(&mut w, rng, out, &m2, false, (1, 3))?;
+                let c = one_tx(&mut w, rng, out, &m1, false, (1, 3), true)?;
+                let d = one_tx(&mut w, rng, out, &m2, false, (1, 3), true)?;
                 head = merge_pair(&mut w, out, &c, &d, 0, "crisscross")?;
             }
             _ => {
@@ -623,7 +656,7 @@ pub fn run(opts: &Opts) -> Result<(), String> {
     let n = opts.usize("n", 50);
     let steps = opts.usize("steps", 6);
     let thorough = opts.thorough();
-    let mut rng = Rng::new(seed);
+    let mut rng = Rng(Rng::new(seed).next()); // util::Rng::new(s+1) is Rng::new(s) shifted by one draw: mix
     let mut case = 0;
     if !opts.flag("nodirected") {
         for on_root in [true, false] {
